@@ -2,7 +2,7 @@
 import threading
 from typing import List
 
-from glom import (glom, T, S, A, Val, Coalesce, Fill, Match, Spec, GlomError, PathAccessError, Path, Iter, Sum)
+from glom import (glom, T, S, A, Val, Coalesce, Fill, Match, Spec, Call, GlomError, PathAccessError, Path, Iter, Sum)
 from glom.grouping import Group
 import glom.core as gc
 
@@ -51,7 +51,7 @@ class Hook:
         return '<hook%d>' % self.hid
 
 
-NCALL = 8
+NCALL = 11
 
 
 def make_pool():
@@ -65,13 +65,20 @@ def make_pool():
         Coalesce((hooks[5], T['nope']), Val('fallback')),                                         # 5 branch fails after the hook
         ((A.globals.g), hooks[6], Coalesce(S.globals.g, default='UNBOUND')),                      # 6 globals
         (hooks[7], [T * 2], Sum()),                                                               # 7 plain restructuring
+        Call(_rec, args=([T['id'], Spec(hooks[8]), 'lit'],), kwargs={'k': {'d': Spec(hooks[8])}}),   # 8 hook inside a list / dict ARGUMENT under construction
+        ('a', hooks[9], ['x']),                                                                   # 9 fails: nothing to iterate at path a
+        ('b', 'c', hooks[10], [T]),                                                               # 10 fails the same way at another path
     ]
     return hooks, specs
 
 
+def _rec(*a, **kw):
+    return (a, sorted(kw.items()))
+
+
 def make_target(i, x, y):
     # calls 3 (bucket keys hashed next to id(spec) keys) and 4/5 (targets formatted into the error trace) get concrete data
-    return [{'a': x}, x, {'a': 5, 'b': y}, [3, 4, 5], {'a': {'b': 1}}, {'z': 2}, x, [x, y]][i]
+    return [{'a': x}, x, {'a': 5, 'b': y}, [3, 4, 5], {'a': {'b': 1}}, {'z': 2}, x, [x, y], {'id': x}, {'a': 7}, {'b': {'c': 8}}][i]
 
 
 def outcome_of(thunk):
@@ -122,6 +129,24 @@ def reentrant(c0: int, c1: int, c2: int, depth: int, x: int, y: int) -> bool:
         if alone[lvl][0] == 'err':
             reach('reentrant_err')
     return True
+
+
+def recursive_args(n: int, x: int) -> bool:
+    """the same spec object -- with a list argument under construction -- re-entered from the callable inside that list"""
+    start()
+    holder = {}
+
+    def f(t):
+        if t['n'] <= 0:
+            return 'leaf'
+        return glom({'n': t['n'] - 1, 'id': t['id'] + 1}, holder['spec'])
+    holder['spec'] = Call(_rec, args=([T['id'], Spec(f), T['n']],))
+    got = glom({'n': n, 'id': x}, holder['spec'])
+    exp = 'leaf'
+    for lvl in range(1, n + 1):
+        exp = (([x + (n - lvl), exp, lvl],), [])
+    reach('recursive_args')
+    return got == exp or fail(got=got, exp=exp)
 
 
 def recursive(n: int, x: int) -> bool:
@@ -320,6 +345,7 @@ def obligations(tier):
             obs.append(Ob(reentrant, fixed={'c0': c0, 'c1': c1, 'depth': 3}, pre='0 <= c2 < %d' % NCALL, name='reentrant3_%d_%d' % (c0, c1),
                           timeout=300, path_timeout=60))
     obs.append(Ob(recursive, pre='0 <= n <= 3', name='recursive'))
+    obs.append(Ob(recursive_args, pre='1 <= n <= 3', name='recursive_args'))
     obs.append(Ob(caught_inner, fixed={'c1': 4}, name='caught_inner', timeout=200))
     sv = ' and '.join('0 <= s%d <= 1' % i for i in range(8))
     for w0 in range(4):
